@@ -23,7 +23,7 @@ Specs are JSON-able.  `build(spec)` imports openmdao; nothing else here does.
 """
 import numpy as np
 
-from omv.ref.flatmodel import FAMILIES, UNITS, conv
+from omv.ref.flatmodel import FAMILIES, conv
 
 A_SHAPES = [(2,), (3,), (4,), (2, 2), (1, 3), (3, 1), (2, 3)]
 
@@ -75,7 +75,8 @@ def gen_spec(rng):
     has_g = rng.random() < 0.5
     spec['g'] = {'present': has_g, 'prom_out': rng.random() < 0.5, 'prom_in_all': rng.random() < 0.3}
     nparam = rng.randint(0, 2)
-    params = [{'name': 'p%d' % k, 'cls': cls(), 'members': [], 'unitless': rng.random() < 0.12} for k in range(nparam)]
+    params = [{'name': 'p%d' % k, 'cls': cls(0.4), 'members': [], 'unitless': rng.random() < 0.12}
+              for k in range(nparam)]
     comps = []
     sources = [('iv', o['name'], o['cls'], False) for o in ivc['outs']]      # (comp, var, cls, dynamic)
     conns = []
@@ -91,7 +92,7 @@ def gen_spec(rng):
         myparams = set()
         for ii in range(nin):
             r = rng.random()
-            if params and r < 0.4:
+            if params and r < 0.45:
                 p = rng.choice(params)
                 if p['name'] in myparams:
                     continue
@@ -157,7 +158,7 @@ def gen_spec(rng):
         need = len(us) > 1
         # (0-d trees: how a shape_by_conn member of a 0-d auto-IVC tree is sized - OpenMDAO makes it (1,) - is a
         #  matter of shape resolution, not of set_val/get_val)
-        if len(mem) > 1 and p['cls'] != '0d' and rng.random() < 0.5:
+        if len(mem) > 1 and p['cls'] != '0d' and rng.random() < 0.7:
             k = rng.randrange(len(mem))
             mem[k]['dyn'] = 'shape_by_conn'
         static = [m for m in mem if m['dyn'] is None]
@@ -406,7 +407,7 @@ def addressable(spec, km):
         su = km.out_units[slot]
         settable = not (su is None and units is not None)
         if mech is None:
-            mech = '0d' if shape == () else 'plain'
+            mech = '0d' if shape == () else ('1-on-0d-source' if km.out_shape[slot] == () else 'plain')
             if si is not None:
                 mech = 'entry-of-array-' + ('0d' if shape == () else '1')
         out.append({'name': name, 'kind': kind, 'slot': slot, 'pos': pos, 'units': units, 'slot_units': su,
